@@ -21,7 +21,10 @@ package main
 //	       c:preg:<n|o>:<id>         pool registration, n = pool id not registered in the state, o = registered
 //	       c:reg:<amt> | c:unreg:<amt>:<recorded> | c:srd:<amt> | c:vrd:<amt> | c:svrd:<amt>
 //	       c:dreg:<amt> | c:dunreg:<amt>:<recorded> | c:vdeleg      (Conway+)
-//	out: decode-err | vc=<ok|vnc|baddep> bad=<0|1> dep=<0|1>
+//	out: decode-err | pure=<1|0> vc=<ok|vnc|baddep> bad=<0|1> dep=<0|1>
+//	     pure = 1 iff validating the same decoded transaction a second time gives the same
+//	            verdicts and the transaction's and the state's reported values (outputs,
+//	            Produced(), stored bytes, mint, UTxOs) are unchanged by validation
 //	     vc  = verdict of the value-conservation errors over the era's whole rule list
 //	     bad = 1 iff some rule returned BadInputsUtxoError
 //	     dep = 1 iff some rule returned IncorrectCertificateDepositError
@@ -614,28 +617,43 @@ func runC27(op string) string {
 		WithDRepRegistrations(dreps).WithNetworkId(1).Build()
 	pp := g1Pparams(era, g1PP{MinFeeA: 0, MinFeeB: 0, MaxTxSize: 1 << 20, Major: 9, MaxValueSize: 5000,
 		KeyDeposit: uint(kd), PoolDeposit: uint(pd), DRepDeposit: dd, GovDeposit: 100000000000})
-	vc, bad, dep := "ok", 0, 0
-	for _, rule := range g1Rules(era) {
-		e := safeRule(rule, tx, 10, ls, pp)
-		if e == nil {
-			continue
+	// The rules must behave as pure functions of the transaction and the state: the
+	// same decoded object is validated twice and everything it (and the state's UTxOs)
+	// report about value is compared before / between / after.
+	validate := func() string {
+		vc, bad, dep := "ok", 0, 0
+		for _, rule := range g1Rules(era) {
+			e := safeRule(rule, tx, 10, ls, pp)
+			if e == nil {
+				continue
+			}
+			var e1 shelley.ValueNotConservedUtxoError
+			var e2 shelley.InvalidCertificateDepositError
+			var e3 shelley.BadInputsUtxoError
+			switch {
+			case errors.As(e, &e1):
+				vc = "vnc"
+			case errors.As(e, &e2):
+				vc = "baddep"
+			case errors.As(e, &e3):
+				bad = 1
+			case c27IsIncorrectDeposit(e):
+				dep = 1
+			}
 		}
-		var e1 shelley.ValueNotConservedUtxoError
-		var e2 shelley.InvalidCertificateDepositError
-		var e3 shelley.BadInputsUtxoError
-		switch {
-		case errors.As(e, &e1):
-			vc = "vnc"
-		case errors.As(e, &e2):
-			vc = "baddep"
-		case errors.As(e, &e3):
-			bad = 1
-		case c27IsIncorrectDeposit(e):
-			dep = 1
-		}
+		return fmt.Sprintf("vc=%s bad=%d dep=%d", vc, bad, dep)
+	}
+	snap0 := g1TxSnap(tx, utxos)
+	v1 := validate()
+	snap1 := g1TxSnap(tx, utxos)
+	v2 := validate()
+	snap2 := g1TxSnap(tx, utxos)
+	pure := 1
+	if v1 != v2 || snap0 != snap1 || snap1 != snap2 {
+		pure = 0
 	}
 	_ = conway.UtxoValidationRules
-	return fmt.Sprintf("vc=%s bad=%d dep=%d", vc, bad, dep)
+	return fmt.Sprintf("pure=%d %s", pure, v1)
 }
 
 // c27IsIncorrectDeposit recognises conway.IncorrectCertificateDepositError by type name,
